@@ -26,7 +26,10 @@ fn core_only(rng: &mut Rng, with_timers: bool) -> wf::WfRecipe {
             }
             // merge adjacent text items created by the replacement
             let mut merged: Vec<Item> = Vec::new();
-            for it in items.drain(..) { match (merged.last_mut(), it) { (Some(Item::Text(a)), Item::Text(b)) => a.push_str(&b), (_, it) => merged.push(it) } }
+            for it in items.drain(..) {
+                let it = if let Item::SoftBreak = it { Item::Text(" ".into()) } else { it };   // a removed timer may leave a break next to text
+                match (merged.last_mut(), it) { (Some(Item::Text(a)), Item::Text(b)) => a.push_str(&b), (_, it) => merged.push(it) }
+            }
             *items = merged;
         }
     }
@@ -56,12 +59,23 @@ pub fn run(ctx: &mut Ctx) {
     // converse clause: (flag bit, input, conv, predicate on the rendering)
     let cases: Vec<(u32, &str, u8, Box<dyn Fn(&str) -> bool>)> = vec![
         (1 << 3, "Add @sea|salt{1%g}.", 0, Box::new(|s| s.contains(&format!("I({};-;", r_cps("sea|salt"))))),
+        (1 << 3, "Use #big|pot{} and ~rest|nap{5%min}.", 1, Box::new(|s| s.contains(&format!("C({};-;", r_cps("big|pot"))) && s.contains(&format!("M({};", r_cps("rest|nap"))) && !s.contains("diags=[E"))),
         (1 << 9, "Add @salt{2-3%g}.", 0, Box::new(|s| s.contains(&format!("TXT({})", r_cps("2-3"))))),
+        (1 << 9, "Add @salt{2-3}.", 1, Box::new(|s| s.contains(&format!("TXT({})%-", r_cps("2-3"))))),
+        (1 << 9, "Add @water{2-3 l} and @milk{1/2-1 cup}.", 1, Box::new(|s| !s.contains("RNG("))),
+        (1 << 9, "Add @water{ 2 - 3 %l} and #pan{1-2}.", 0, Box::new(|s| !s.contains("RNG("))),
         (1 << 5, "Add @salt{1 kg}.", 1, Box::new(|s| s.contains(&format!("TXT({})%-", r_cps("1 kg"))))),
+        (1 << 5, "Add @salt{1/2 cup} and @oil{= 2 tbsp} and #pan{2 big}.", 1, Box::new(|s| s.contains(&format!("TXT({})%-", r_cps("1/2 cup"))) && s.contains(&format!("TXT({})%-", r_cps("2 tbsp"))))),
+        (1 << 5, "Cook ~{10%kg} or ~{x%min}.", 1, Box::new(|s| !s.contains("diags=[E"))),
         (1 << 6, ">> [mode]: steps\n\nAdd @salt{}.", 0, Box::new(|s| s.contains(&format!("meta=[{}={}]", r_cps("[mode]"), r_cps("steps"))))),
+        (1 << 6, ">> [duplicate]: ref\n\nAdd @salt{} and @salt{}.", 0, Box::new(|s| s.contains(&format!("{}={}", r_cps("[duplicate]"), r_cps("ref"))) && s.contains("def[]+>-;0) I("))),
+        (1 << 6, ">> [define]: nonsense\n\nAdd @salt{}.", 0, Box::new(|s| !s.contains("diags=[E") && s.contains(&r_cps("[define]")))),
         (1 << 7, "Add 2 cups of water.", 1, Box::new(|s| s.contains("inline=[]") && s.contains(&format!("t:{}", r_cps("Add 2 cups of water."))))),
+        (1 << 7, "Bake at 180 °C for 10min or -5 C.", 1, Box::new(|s| s.contains("inline=[]"))),
         (1 << 10, "Wait ~rest and go.", 0, Box::new(|s| s.contains(&format!("M({};-)", r_cps("rest"))) && !s.contains("diags=[E"))),
+        (1 << 10, "Wait ~long rest{} and go.", 1, Box::new(|s| s.contains(&format!("M({};-)", r_cps("long rest"))) && !s.contains("diags=[E"))),
         (1 << 1, "Add @&salt{}.", 0, Box::new(|s| s.contains(&format!("I({};", r_cps("&salt"))) && !s.contains("diags=[E"))),
+        (1 << 1, "Add @?salt{} and #-pan{} and @+@x{}.", 0, Box::new(|s| s.contains(&format!("I({};", r_cps("?salt"))) && s.contains(&format!("C({};", r_cps("-pan"))) && !s.contains("diags=[E"))),
     ];
     for (flag, input, conv, pred) in &cases {
         for k in 0..256 {
